@@ -18,7 +18,7 @@ RULE = ("seeded circuits (hierarchy 0-1, several nodes per type, edges) x parame
         "monitor: a second sweep with one row changed must leave all other columns bit-identical; non-trivial = >= 2 rows and "
         ">= 2 parameters; distinct = distinct (spec, grid) hash")
 DECIDING = ['columns_compared', 'rows_in_grids', 'large_grids', 'dataframe_grids_nondefault_index', 'edge_param_keys', 'node_param_keys', 'multi_target_keys', 'permuted_grids',
-            'input_sweeps', 'uncoupled_checks', 'vectorized_sweeps', 'parallel_edge_keys', 'repeated_input_sweeps']
+            'input_sweeps', 'uncoupled_checks', 'vectorized_sweeps', 'parallel_edge_keys', 'repeated_input_sweeps', 'int_declared_sweep_keys']
 ASSUMPTIONS = ['the returned parameter table (index = circuit labels) is the authority for which values belong to which column']
 CASE_TIMEOUT = 300
 
@@ -115,6 +115,15 @@ def run_case(case, ctx):
             continue
         ln = n_rows if not permute else rnd.randint(2, 3)
         grid[key] = [round(vals.new() * rnd.choice([1, 2]), 4) for _ in range(ln)]
+        if 'nodes' in param_map[key] and rnd.random() < 0.35:
+            # the swept constant is declared with an integer default (YAML `k: 2`); the first grid value is integral, later ones
+            # are not (the data type of a merged parameter must not be decided by the first circuit alone)
+            opn_, var_ = param_map[key]['vars'][0].split('/')
+            overridden = any(var_ in nt_.get('over', {}).get(opn_, {}) for nt_ in base['node_types'].values())
+            if not overridden and base['ops'][opn_]['vars'][var_][0] == 'const':
+                base['ops'][opn_]['vars'][var_][1] = rnd.choice([1, 2, 3])
+                grid[key][0] = float(rnd.choice([1, 2, 3]))
+                mech['int_declared_sweep_keys'] = mech.get('int_declared_sweep_keys', 0) + 1
     if not grid:
         res.update(status='discard', symptom='no sweepable parameter', mech=mech)
         return res
